@@ -37,11 +37,12 @@ theorem reported_codec_is_used (enc : Enc) (prefs : List Pref) (opts flags : Lis
 
 /-- Selection picks the first usable preference: for every preference list over the codecs 0..4, the compressor
 built from it chooses `Spec.firstUsable` of the list as written (duplicates, and everything behind a
-`NoCompression`, do not matter), and no compressor is built exactly when that choice is "none" up front. -/
+`NoCompression`, do not matter); when no compressor is built (empty list, or `NoCompression` first) the first
+usable preference is "none"; and lists over 0..4 are never rejected as unknown. -/
 theorem selection_is_first_usable (prefs : List Pref) (dis : Bool)
     (hv : ∀ p ∈ prefs, 0 ≤ p.codec ∧ p.codec ≤ 4) :
     (∀ opts, build prefs = .comp opts → choose opts dis = Spec.firstUsable (prefs.map Pref.codec) dis) ∧
-    (build prefs = .noCompressor → Spec.firstUsable (prefs.map Pref.codec) dis = 0 ∨ (prefs.map Pref.codec).head? = some 0) ∧
+    (build prefs = .noCompressor → Spec.firstUsable (prefs.map Pref.codec) dis = 0) ∧
     build prefs ≠ .unknownCodec :=
   Proof.C19.selection_first_usable prefs dis hv
 
